@@ -134,3 +134,52 @@ contract(M + "FortranReaderBase.get_source_item@cpp",
     locals=dict(lines="list[str]"),
     serves=["C12", "C14"],
 )
+
+contract(M + "Comment.__init__",
+    types=dict(self="Comment", comment="str", linenospan="tuple[int,int]", reader="FortranReaderBase", inline="bool"),
+    modifies=["self.comment", "self.span", "self.reader", "self.line", "self.inline"],
+    ensures={"stored": "self.comment == comment and self.line == comment and self.span == linenospan and self.inline == inline"},
+    raises=[], serves=["C11"],
+)
+
+contract(M + "FortranReaderBase.comment_item",
+    types=dict(self="FortranReaderBase", comment="str", startlineno="int", endlineno="int", inline_comment="bool"), returns="ref:Comment",
+    modifies=[],
+    ensures={"item": "result.comment == comment and result.span == (startlineno, endlineno) and result.inline == inline_comment and not was_allocated(result)"},
+    raises=[], serves=["C11"],
+)
+
+contract(M + "FortranReaderBase.handle_inline_comment",
+    types=dict(self="FortranReaderBase", line="str", lineno="int", quotechar="str?", buffer_comments_to_fifo="bool"),
+    returns="tuple[str,str?,bool]",
+    locals=dict(noncomment_items="list[str]", items="list[tstr]"),
+    requires={"quote_is_quote": "quotechar is None or quotechar == \"'\" or quotechar == '\"'",
+              "f2py_off": "not self._format._f2py_enabled"},
+    modifies=["self.fifo_item", "self.f2py_comment_lines"],
+    ensures={
+        "no_comment_line_unchanged": "implies(not result[2], result[0] == line)",
+        "inside_open_literal_nothing_is_cut": "implies(quotechar is not None and nq(line, quotechar, 0) == -1, "
+                                              "result[0] == line and not result[2] and result[1] == quotechar)",
+        "bang_inside_open_literal_is_kept": "implies(quotechar is not None and nq(line, quotechar, 0) >= 0, "
+                                            "result[0][:nq(line, quotechar, 0) + 1] == line[:nq(line, quotechar, 0) + 1])",
+        "queue_only_grows_by_the_comment": "implies(result[2] and buffer_comments_to_fifo, len(self.fifo_item) == len(old(self.fifo_item)) + 1 "
+                                           "and list(self.fifo_item)[:len(old(self.fifo_item))] == list(old(self.fifo_item)))",
+        "queue_untouched_otherwise": "implies(not result[2] or not buffer_comments_to_fifo, list(self.fifo_item) == list(old(self.fifo_item)))",
+        "quote_state_is_a_quote": "result[1] is None or result[1] == \"'\" or result[1] == '\"'",
+    },
+    raises=[],
+    receiver="(lambda r: (r.set_format(FortranFormat(True, False)), r)[1])(FortranStringReader('x = 1\\n', ignore_comments=False))",
+    domain=dict(line="strings(\"a'\\\"! \", N)", lineno="[1]", quotechar="[None, \"'\", '\"']", buffer_comments_to_fifo="[True, False]",
+                _size=dict(quick=6, thorough=8)),
+    hints={"no_comment_line_unchanged": ["joined"], "inside_open_literal_nothing_is_cut": ["joined", "quote_state", "no_comment_yet"],
+           "bang_inside_open_literal_is_kept": ["joined", "first_kept"]},
+    loops={0: dict(seq="its", bind={"nqc0": "newquotechar"}, invariant={
+        "joined": "items == its and ''.join(noncomment_items) == ''.join(its[:_k0]) and ''.join(its) == line",
+        "no_comment_yet": "commentline is None",
+        "quote_state": "newquotechar == nqc0",
+        "first_kept": "implies(quotechar is not None and nq(line, quotechar, 0) >= 0 and _k0 >= 1, "
+                      "len(''.join(noncomment_items)) >= len(its[0]) and ''.join(noncomment_items)[:len(its[0])] == its[0])",
+        "queue": "self.fifo_item == old(self.fifo_item)",
+        }, types={"commentline": "str?", "newquotechar": "str?", "j": "int"})},
+    serves=["C04", "C05", "C06", "C11", "C12"],
+)
